@@ -128,6 +128,36 @@ pub fn judge(case: &Value, salt: usize) -> Option<Value> {
                 }
             }
         }
+        // ---- the record built once, cut into raw slices at the field boundaries and emitted piece by piece:
+        // what is emitted are views that do not start at bit 0 of their buffer
+        for mask in 0..(1usize << (n - 1)) {
+            let mut xs = fresh();
+            let mut widths: Vec<usize> = vec![0];
+            for i in 0..n {
+                *widths.last_mut().unwrap() += fields[i].w;
+                if i + 1 < n && (mask >> i) & 1 == 1 {
+                    widths.push(0);
+                }
+            }
+            let cuts: String = widths.iter().map(|w| format!("{} bits emit", w)).collect::<Vec<_>>().join(" ");
+            let src = format!("{} open-bitstr {} remain", prog_pack, cuts);
+            match xs.eval(&src) {
+                Err(e) => why.push(format!("`{}` failed: {}", src, e)),
+                Ok(()) => {
+                    let out: Option<Vec<u8>> = xs.get_var_value("output").ok().and_then(|c| c.bitstr().ok().map(|b| b.bits().collect()));
+                    if out.as_deref() != Some(&packed[..]) {
+                        why.push(format!("`{}`: output {:?} expected {:?}", src, out, packed));
+                    }
+                    let len = xs.get_var_value("output-length").ok().and_then(|c| c.to_xint().ok());
+                    if len != Some(packed.len() as i128) {
+                        why.push(format!("`{}`: output-length {:?} expected {}", src, len, packed.len()));
+                    }
+                    if xs.get_data(0).and_then(|c| c.to_xint().ok()) != Some(0) {
+                        why.push(format!("`{}`: remain is not 0", src));
+                    }
+                }
+            }
+        }
         why
     });
     match r {
@@ -205,6 +235,14 @@ pub fn cmd_record(args: &[String]) -> i32 {
             format!("[ {} ] >bitstr emit", parts.join(" "))
         } else {
             format!("[ {} ] >bitstr emit [ {} ] >bitstr emit", parts[..cut].join(" "), parts[cut..].join(" "))
+        };
+        // or the record built once and emitted as two raw slices cut at an arbitrary bit
+        let total: usize = fields.iter().map(|f| f.w).sum();
+        let emit_src = if rng.chance(1, 3) && total > 1 {
+            let k = 1 + rng.below(total - 1);
+            format!("[ {} ] >bitstr open-bitstr {} bits emit {} bits emit", parts.join(" "), k, total - k)
+        } else {
+            emit_src
         };
         let src = format!("[ {} ] >bitstr dup open-bitstr {} remain", parts.join(" "), parse.join(" "));
         let mut xs = fresh();
